@@ -153,6 +153,8 @@ structure St where
   spent : Option SetKey := none
   fwd : List Nat := []
   pre : List Nat := []
+  /-- hashes whose preimage lookup answers with a hard registry error -/
+  perr : List Nat := []
   arb : Arb := {}
   lastH : Nat := 0
   /-- implementation state before the current op -/
@@ -203,6 +205,8 @@ structure St where
   danglingMustGoChecks : Nat := 0
   breachDuplicateFails : Nat := 0
   unitMonitorChecks : Nat := 0
+  lookupErrCases : Nat := 0
+  chainActionErrors : Nat := 0
   watcherCases : Nat := 0
   watcherSpentLocal : Nat := 0
   watcherSpentRemote : Nat := 0
@@ -210,13 +214,18 @@ structure St where
   watcherDiffering : Nat := 0
 
 def St.env (s : St) : Env :=
-  { preimageKnown := fun h => s.pre.contains h, isForwarded := fun i => s.fwd.contains i,
+  { preimageKnown := fun h => s.pre.contains h || s.perr.contains h, isForwarded := fun i => s.fwd.contains i,
     pastGrace := s.grace, deltaOut := s.dout, deltaIn := s.din }
 
 def St.sets (s : St) : Sets :=
   { loc := newHtlcSet s.rawL, rem := newHtlcSet s.rawR, pend := newHtlcSet s.rawP }
 
-def St.wf (s : St) : Bool := Mon.wellFormed s.rawL s.rawR s.rawP
+/-- cases the monitor judges: well-formed HTLC sets and an environment in which every preimage
+    lookup answers found / not found (`ErrInvoiceNotFound`, `ErrNoInvoicesCreated`); a hard
+    registry error is an environment fault under which the property is not required. -/
+def St.wf (s : St) : Bool := Mon.wellFormed s.rawL s.rawR s.rawP && s.perr.isEmpty
+
+def St.err (s : St) : Nat → Bool := fun h => s.perr.contains h
 
 /-- for watcher cases the monitor judges the outcome against the HTLC sets dumped from the channel
     state, not against what the watcher dispatched. -/
@@ -563,7 +572,7 @@ def step (s : St) (line : String) : IO St := do
     let s := { s with caseId := id, kind := kind, dout := (kvNat? rest "dout").getD 0,
                       din := (kvNat? rest "din").getD 0, grace := kvNat? rest "grace" == some 1,
                       ppresent := kvNat? rest "ppresent" == some 1, fcErr := fc,
-                      rawL := [], rawR := [], rawP := [], fwd := [], pre := [],
+                      rawL := [], rawR := [], rawP := [], fwd := [], pre := [], perr := [],
                       dumpL := [], dumpR := [], dumpP := [], spent := none,
                       watcherCases := s.watcherCases + (if kind == "watcher" then 1 else 0),
                       arb := { fcErr := fc }, lastH := 0, implState := "D", pathFails := [],
@@ -612,6 +621,7 @@ def step (s : St) (line : String) : IO St := do
         s ← monitor s "watcher-confcommitkey" s!"spent={keyName k} commitment but CommitSet.ConfCommitKey={ikey}"
       return s
   | ["FWD", l] => return { s with fwd := parseNatList l }
+  | ["PERR", l] => return { s with perr := parseNatList l, lookupErrCases := s.lookupErrCases + (if l == "-" then 0 else 1) }
   | ["PRE", l] =>
     let s := { s with pre := parseNatList l }
     let mut s := if s.wf then { s with wellFormedCases := s.wellFormedCases + 1 }
@@ -666,20 +676,24 @@ def step (s : St) (line : String) : IO St := do
     let height := (kvNat? rest "h").getD 0
     let conf := kvNat? rest "conf" == some 1
     let impl := (resultWords ws).headD "?"
-    let m0 := renderActions (checkLocal s.env height tr s.sets conf false)
-    let m1 := renderActions (checkLocal s.env height tr s.sets conf true)
+    let fails := lookupFails s.err s.sets.loc
+    let m0 := if fails then "err" else renderActions (checkLocal s.env height tr s.sets conf false)
+    let m1 := if fails then "err" else renderActions (checkLocal s.env height tr s.sets conf true)
+    let s := if impl == "err" then { s with chainActionErrors := s.chainActionErrors + 1 } else s
     let s := if impl != "-" then { s with nonEmptyMaps := s.nonEmptyMaps + 1, nontrivial := s.nontrivial + 1 } else s
     let mut s ← cmp2 s "local" impl m0 m1
+    if impl == "err" && s.wf then
+      s ← monitor s "chain-actions-error" s!"unit checkLocalChainActions(height={height}) failed although every preimage lookup answers found / not-found (ErrInvoiceNotFound, ErrNoInvoicesCreated)"
     if tr == .chain && !conf && s.wf then
       if mustGo s height then
         s := { s with mustGoChecks := s.mustGoChecks + 1 }
-        if impl == "-" then
+        if impl == "-" || impl == "err" then
           s ← monitor s "onchain-late" s!"unit checkLocalChainActions(height={height}, chainTrigger) is empty although an offered HTLC (ours or only on the peer's commitments, preimage unknown) or a claimable received HTLC is within its broadcast delta"
       else if wrapOnly s height then
         s := { s with wrapSkipped := s.wrapSkipped + 1 }
       if !mayGo s height then
         s := { s with noGoChecks := s.noGoChecks + 1 }
-        if impl != "-" then
+        if impl != "-" && impl != "err" then
           s ← monitor s "onchain-unclaimable" s!"unit checkLocalChainActions(height={height}, chainTrigger) = {impl} although no offered HTLC and no claimable received HTLC is near expiry"
     if conf && tr != .chain then
       s ← unitMonitorConstruct s .loc true impl
@@ -690,9 +704,13 @@ def step (s : St) (line : String) : IO St := do
     let height := (kvNat? rest "h").getD 0
     let pend := kvNat? rest "pend" == some 1
     let impl := (resultWords ws).headD "?"
-    let m := renderActions (checkRemote s.env height tr s.sets pend)
+    let m := if lookupFails s.err (confRemote s.sets pend) then "err"
+             else renderActions (checkRemote s.env height tr s.sets pend)
+    let s := if impl == "err" then { s with chainActionErrors := s.chainActionErrors + 1 } else s
     let s := if impl != "-" then { s with nonEmptyMaps := s.nonEmptyMaps + 1, nontrivial := s.nontrivial + 1 } else s
-    let s ← cmp2 s "remote" impl m m
+    let mut s ← cmp2 s "remote" impl m m
+    if impl == "err" && s.wf then
+      s ← monitor s "chain-actions-error" s!"unit checkRemoteChainActions(height={height}) failed although every preimage lookup answers found / not-found"
     if tr != .chain then unitMonitorConstruct s (if pend then .pend else .rem) true impl else return s
   | "construct" :: rest =>
     let s := { s with ops := s.ops + 1 }
@@ -700,8 +718,10 @@ def step (s : St) (line : String) : IO St := do
     let some key := (kv? rest "key").bind parseKey | mismatch s "bad key"
     let height := (kvNat? rest "h").getD 0
     let impl := (resultWords ws).headD "?"
-    let m0 := renderActions (construct s.env key s.sets height tr false)
-    let m1 := renderActions (construct s.env key s.sets height tr true)
+    let fails := lookupFails s.err (s.sets.get key)
+    let m0 := if fails then "err" else renderActions (construct s.env key s.sets height tr false)
+    let m1 := if fails then "err" else renderActions (construct s.env key s.sets height tr true)
+    let s := if impl == "err" then { s with chainActionErrors := s.chainActionErrors + 1 } else s
     let s := if impl != "-" then { s with nonEmptyMaps := s.nonEmptyMaps + 1, nontrivial := s.nontrivial + 1 } else s
     let s ← cmp2 s "construct" impl m0 m1
     if s.kind == "watcher" then
@@ -732,16 +752,16 @@ def step (s : St) (line : String) : IO St := do
       s := { s with arb := { s.arb with active := { loc := s.sets.loc, rem := s.sets.rem,
                                                     pend := if s.ppresent then s.sets.pend else {} } } }
       let a := s.arb
-      s ← arbCompare s "start" implStr fun pl => advance env a height .chain none pl advanceFuel
+      s ← arbCompare s "start" implStr fun pl => advanceE env s.err a height .chain none pl advanceFuel
     else if opName == "block" then
       let a := s.arb
-      s ← arbCompare s "block" implStr fun pl => handleBlock env a height (ev.map (·.1)) pl
+      s ← arbCompare s "block" implStr fun pl => handleBlockE env s.err a height (ev.map (·.1)) pl
     else
       let a := s.arb
       let already := rest.contains "already=1"
       if already != (a.state != .default) then
         s ← mismatch s s!"user: errAlreadyForceClosed={already} but model state is {stateTag a.state}"
-      s ← arbCompare s "user" implStr fun pl => handleUser env a height pl
+      s ← arbCompare s "user" implStr fun pl => handleUserE env s.err a height pl
     -- (S) monitor on the implementation's answers
     if implSt != preState || fc != 0 || !opFails.isEmpty || !res.isEmpty || !finals.isEmpty then
       s := { s with nontrivial := s.nontrivial + 1 }
@@ -768,6 +788,8 @@ def step (s : St) (line : String) : IO St := do
       s ← monitor s "force-close-twice" s!"ForceCloseChan called in state {preState}"
     match ev with
     | some (_, some k) =>
+      if !(implSt == "WFR" || implSt == "FR") && wf && (preState == "D" || preState == "BC" || preState == "CB") then
+        s ← monitor s "close-not-processed" s!"a unilateral close was delivered in state {preState} but the arbitrator is in state {implSt} afterwards: the HTLCs of the confirmed commitment get no resolver and nothing is failed back"
       if (implSt == "WFR" || implSt == "FR") && wf then
         s := { s with confirmations := s.confirmations + 1,
                       confLocal := s.confLocal + (if k == .loc then 1 else 0),
@@ -842,6 +864,8 @@ def main : IO Unit := do
   IO.println s!"STAT missing_but_expected_at_broadcast={s.regressionMissing}"
   IO.println s!"STAT injected_missing_resolution_no_resolver={s.injectedMissingResolution}"
   IO.println s!"STAT must_go_dangling_only_checks={s.danglingMustGoChecks}"
+  IO.println s!"STAT hard_lookup_error_cases={s.lookupErrCases}"
+  IO.println s!"STAT chain_action_errors={s.chainActionErrors}"
   IO.println s!"STAT watcher_cases={s.watcherCases}"
   IO.println s!"STAT watcher_spent_local={s.watcherSpentLocal}"
   IO.println s!"STAT watcher_spent_remote={s.watcherSpentRemote}"
